@@ -65,9 +65,13 @@ class Evaluate:
                     self.pvar, self.rvar = U(t.elts[0]), U(t.elts[1])
         if self.pred_assign is None:
             raise AnalysisError("Context.evaluate: `p, r = query.predecessor()` not found")
+        # the recursion: `<c>.evaluate(...)` on a local that holds self.child_context() (identified by its receiver,
+        # not by its operand - the operand is what rule C01.1 checks)
         self.rec_calls = []
+        child_locals = {U(n.targets[0]) for n in body_walk(fn) if isinstance(n, ast.Assign) and isinstance(n.value, ast.Call)
+                        and call_name(n.value) == "self.child_context"}
         for c in calls_in(fn, tail="evaluate"):
-            if c.args and U(c.args[0]) == self.pvar and call_recv(c) != "self":
+            if call_recv(c) in child_locals:
                 self.rec_calls.append(c)
         self.sub_calls = [c for c in calls_in(fn, tail="evaluate")
                           if call_recv(c) is not None and "child_context" in call_recv(c)]
@@ -77,6 +81,40 @@ class Evaluate:
 
     def node(self, astnode):
         return self.cfg.node_of(astnode)
+
+    def hit_test(self):
+        """(test node, edge label) of the `if <looked-up state> is not None` test that follows the cache lookup"""
+        from ..lib import literals_of_test
+        cfg = self.cfg
+        g = self.one(self.get_calls, "cache lookup")
+        gn = self.node(g)
+        a = cfg.nodes[gn].ast
+        if not (isinstance(a, ast.Assign) and a.value is g):
+            raise AnalysisError("Context.evaluate: lookup result is not bound to a local")
+        var = U(a.targets[0])
+        for n in cfg.nodes:
+            if n.kind != "test" or not cfg.dominates(gn, n.id):
+                continue
+            for lab in ("T", "F"):
+                for e, txt, pol in literals_of_test(n.ast, lab):
+                    if txt == f"{var} is None" and pol is False:
+                        # no rebinding of var between the lookup and the test
+                        if cfg.reaching_defs(var, n.id) == [gn]:
+                            return n.id, lab, var
+        raise AnalysisError("Context.evaluate: `if state is not None` hit test not found after the lookup")
+
+    def is_hit_exit(self, r):
+        t, lab, _ = self.hit_test()
+        return self.cfg.edge_dominates(t, lab, r)
+
+    def is_delegation_exit(self, r):
+        """exits of the `if self.query is not None:` sub-query delegation"""
+        cfg = self.cfg
+        for n in cfg.nodes:
+            if n.kind == "test" and U(n.ast) in ("self.query is not None", "not self.query is None"):
+                if cfg.edge_dominates(n.id, "T", r):
+                    return True
+        return False
 
     def one(self, lst, what):
         if len(lst) != 1:
@@ -1199,21 +1237,8 @@ def rule_lookup_before_work(chk, ev, rid):
         chk.ob(rid, C, ok, f"`{U(cfg.nodes[wn].ast)[:50]}` is reached only after the lookup (or via the bypass edge)",
                cfg.nodes[wn].ast, ev.mod, key="lookup-dominates:" + U(cfg.nodes[wn].ast)[:30])
     # hit branch: the test on the looked-up value
-    var = None
-    a = cfg.nodes[gn].ast
-    if isinstance(a, ast.Assign) and a.value is g:
-        var = U(a.targets[0])
-    if var is None:
-        raise AnalysisError("Context.evaluate: lookup result is not bound to a local")
-    hit = None
-    for n in cfg.nodes:
-        if n.kind == "test":
-            for e, txt, pol in [(x[0], x[1], x[2]) for x in __import__("sa.lib", fromlist=["x"]).literals_of_test(n.ast, "T")]:
-                if txt == f"{var} is None" and pol is False and cfg.dominates(gn, n.id):
-                    hit = n.id
-    if hit is None:
-        raise AnalysisError("Context.evaluate: `if state is not None` hit test not found after the lookup")
-    tsucc = [m for m, lab in cfg.succ[hit] if lab == "T"][0]
+    hit, hlab, var = ev.hit_test()
+    tsucc = [m for m, lab in cfg.succ[hit] if lab == hlab][0]
     reach = cfg.reachable(tsucc)
     ok = not any(wn in reach for wn in work) and stn not in reach and cfg.exit in reach
     chk.ob(rid, C, ok, "the hit branch returns the cached state without reaching the recursion, the action or cache.store",
